@@ -43,6 +43,11 @@ typedef struct {
     kodama_dendrogram *d;
     void *input;
     size_t input_bytes;
+    /* the pointer returned by the FIRST kodama_dendrogram_steps call on this dendrogram: the property
+     * says the array stays readable and unchanged until kodama_dendrogram_free, so every later
+     * `steps` op reads through this HELD pointer (whatever other API calls happened in between)
+     * and cross-checks it against a fresh call */
+    const kodama_step *held;
 } slot_t;
 
 static slot_t slots[MAXH];
@@ -233,6 +238,7 @@ static void exec_op(section_t *s, char *line) {
             return;
         }
         sl->d = d;
+        sl->held = NULL;
         out_str(s, "created\n");
         return;
     }
@@ -261,7 +267,13 @@ static void exec_op(section_t *s, char *line) {
     } else if (!strcmp(op, "steps")) {
         size_t len = kodama_dendrogram_len(sl->d);
         size_t obs = kodama_dendrogram_observations(sl->d);
-        const kodama_step *st = kodama_dendrogram_steps(sl->d);
+        const kodama_step *fresh = kodama_dendrogram_steps(sl->d);
+        if (!sl->held) sl->held = fresh;
+        const kodama_step *st = sl->held;
+        if (len && fresh != st && memcmp(fresh, st, len * sizeof(kodama_step)) != 0) {
+            out_str(s, "steps-changed: the array obtained earlier no longer equals the dendrogram's steps\n");
+            return;
+        }
         out_str(s, "steps len=");
         out_u64(s, len);
         out_str(s, " obs=");
@@ -283,6 +295,7 @@ static void exec_op(section_t *s, char *line) {
     } else if (!strcmp(op, "free")) {
         kodama_dendrogram_free(sl->d);
         sl->d = NULL;
+        sl->held = NULL;
         out_str(s, "freed\n");
     } else {
         out_str(s, "bad-op\n");
